@@ -31,3 +31,15 @@ Proof. intros [|]; vm_compute; reflexivity. Qed.
 (* a not coverable text is reported as disconnected *)
 Example ex_gap : connect_eos ex_conn (insert_all ex_conn (reset 3) [mkNode 0 1 0 0 1; mkNode 2 3 0 0 1]) = None.
 Proof. vm_compute. reflexivity. Qed.
+
+(* the full-strength statement "the machine lattice equals the exact one for every input within the documented limits" is
+   refuted (known finding i32_cost_overflow): see Proofs/LatticeOverflow.v *)
+From SudachiVerif Require Proofs.LatticeOverflow.
+Definition C02_i32_exact_full : Prop :=
+  forall chk conn (es : list mentry) i lft cst, exists r, mscan chk conn es i lft cst None MAX32 = Ok r.
+Example C02_i32_exact_full_refuted : ~ C02_i32_exact_full.
+Proof.
+  intros H. destruct (H true Proofs.LatticeOverflow.cconn Proofs.LatticeOverflow.row_over 0%nat 0%N Proofs.LatticeOverflow.CMAX) as [r Hr].
+  destruct Proofs.LatticeOverflow.i32_overflow_refuted as [Hp _]. rewrite Hp in Hr. discriminate.
+Qed.
+Check Proofs.LatticeOverflow.reachable_prefix.
